@@ -14,7 +14,7 @@ pub fn def() -> CheckDef {
     CheckDef {
         id: "C30",
         level: "exploration",
-        configs: &["sync-sync", "sync-async", "async-sync", "async-async", "sync-vs-stub", "async-vs-stub", "stub-vs-sync", "stub-vs-async"],
+        configs: &["sync-sync", "sync-async", "async-sync", "async-async", "sync-vs-stub", "async-vs-stub", "stub-vs-sync", "stub-vs-async", "storescp-sync", "storescp-async"],
         quick_runs: 60_000,
         thorough_runs: 2_000_000,
         run,
@@ -28,13 +28,16 @@ pub fn def() -> CheckDef {
                Err otherwise (abort, data, release request, unknown PDU, closed connection); after release/abort returned the \
                side's descriptor is closed; send() Ok means the P-DATA PDU is completely on the wire, in order; receive() Ok returns the peer's next PDU in order (both judged up to the first failed operation); a side sends nothing after its A-ABORT or A-RELEASE-RP, no P-DATA after its \
                A-RELEASE-RQ, and an A-RELEASE-RP only after it received an A-RELEASE-RQ; abort() puts an A-ABORT on the wire \
-               unless the connection already failed. Liveness: every node returns within the step budget once the peer has \
+               unless the connection already failed. storescp-* configurations: the tool's real per-connection loops against a scripted \
+               requestor (complete and abandoned C-STORE messages, C-ECHO, answers awaited or not, then release / abort / close): \
+               once the tool has been handed an A-RELEASE-RQ its last PDU is A-RELEASE-RP and it closes; after a peer abort it \
+               starts nothing and closes. Liveness: every node returns within the step budget once the peer has \
                answered or the connection is closed. distinct = distinct hashed scheduler event sequences; non-trivial = a \
                non-default scheduling, segmentation or fault decision fired",
-        real: &["ClientAssociation, ServerAssociation, AsyncClientAssociation, AsyncServerAssociation: send, receive, release, abort, Drop", "establish / establish_async on both sides", "std and tokio TcpStream, mio, tokio current-thread runtime"],
+        real: &["storescp run_store_sync / run_store_async (whole per-connection loop: C-STORE, C-ECHO, ReleaseRQ and AbortRQ arms)", "ClientAssociation, ServerAssociation, AsyncClientAssociation, AsyncServerAssociation: send, receive, release, abort, Drop", "establish / establish_async on both sides", "std and tokio TcpStream, mio, tokio current-thread runtime"],
         stub: &["TCP/IP (simulated queues; cut, failing send, timeout as scheduler events)", "stub peer (independent PS3.8 encoder)", "application scripts", "PS3.8 send-sequence acceptor (oracle)"],
-        assumptions: &["the storescp tool loops are exercised by C32's nodes; here the acceptor application is a scripted loop over the library API", "loss/duplication/reordering of bytes is not injected (TCP does not do that); connection-level faults are"],
-        required_probes: &["release-ok", "send-ok-on-wire", "receive-ok-in-order", "served-release", "release-collision", "release-got-abort", "release-got-data", "release-on-closed", "abort-sent", "reply-split-across-reads", "fault-during-release"],
+        assumptions: &["in the library pairings the acceptor application is a scripted loop over the library API; the storescp-* configurations run the tool's own loops against a scripted requestor", "loss/duplication/reordering of bytes is not injected (TCP does not do that); connection-level faults are"],
+        required_probes: &["release-ok", "send-ok-on-wire", "receive-ok-in-order", "served-release", "release-collision", "release-got-abort", "release-got-data", "release-on-closed", "abort-sent", "reply-split-across-reads", "fault-during-release", "storescp-release-answered", "storescp-release-mid-dataset", "storescp-aborted-by-peer"],
         net: true,
     }
 }
@@ -647,7 +650,228 @@ fn check_side(env: &EnvRef, who: &str, side: &Side, ep: &simnet::Endpoint, peer:
     Ok(())
 }
 
+// ------------------------------------------------------------------ the storescp loops as acceptors
+//
+// The real per-connection bodies of the tool (run_store_sync / run_store_async) against a scripted
+// requestor that sends complete and abandoned C-STORE messages and C-ECHOs and ends the session
+// with a release request, an abort or a plain close at an arbitrary PDU boundary.
+
+#[derive(Clone, Debug)]
+enum ScuOp {
+    /// pre-encoded P-DATA PDUs of one message (all of them, or a proper prefix when `abandoned`); wait for the answer?
+    Message { pdus: Vec<Vec<u8>>, abandoned: bool, wait: bool, what: &'static str },
+    Release,
+    Abort,
+    Close,
+}
+
+fn gen_scu_script(w: &mut Tape, max_pdu: usize) -> Vec<ScuOp> {
+    use crate::dimse::{self, Frag};
+    let mut v = Vec::new();
+    let n = w.below(4);
+    for k in 0..n {
+        if w.chance(1, 4) {
+            let pdus = dimse::pack(w, &[Frag { ctx: 1, command: true, last: true, data: dimse::c_echo_rq(500 + k as u16) }], max_pdu);
+            v.push(ScuOp::Message { pdus, abandoned: false, wait: w.chance(3, 4), what: "C-ECHO" });
+            continue;
+        }
+        let inst = format!("1.2.826.0.1.3680043.9.77.{}", k);
+        let mut model = dcmref::ds::gen_dataset(w, &dcmref::ds::GenCfg { max_depth: 2, pixel: false, encapsulated: false, ..Default::default() });
+        for (tag, val) in [((0x0008u16, 0x0016u16), CTX_AS.as_bytes()), ((0x0008, 0x0018), inst.as_bytes())] {
+            model.retain(|e| e.tag != tag);
+            let pos = model.iter().position(|e| e.tag > tag).unwrap_or(model.len());
+            model.insert(pos, dcmref::ds::Elem { tag, vr: *b"UI", val: dcmref::ds::Val::Prim(dcmref::ds::Prim::Text(val.to_vec())) });
+        }
+        let data = dcmref::ds::encode(&model, dcmref::ds::Syntax::ImplicitLE, None).map(|x| x.0).unwrap_or_default();
+        let mut frags = vec![Frag { ctx: 1, command: true, last: true, data: dimse::c_store_rq(CTX_AS.as_bytes(), inst.as_bytes(), 10 + k as u16) }];
+        frags.extend(dimse::fragment(w, 1, false, &data, max_pdu - 6, false));
+        let mut pdus = dimse::pack(w, &frags, max_pdu);
+        // an abandoned message: the requestor stops after a proper, non-empty prefix of its PDUs and ends the session
+        if pdus.len() >= 2 && w.chance(1, 3) {
+            let keep = 1 + w.below(pdus.len() as u32 - 1) as usize;
+            pdus.truncate(keep);
+            v.push(ScuOp::Message { pdus, abandoned: true, wait: false, what: "C-STORE (abandoned)" });
+            break;
+        }
+        v.push(ScuOp::Message { pdus, abandoned: false, wait: w.chance(3, 4), what: "C-STORE" });
+    }
+    v.push(match w.weighted(&[6, 2, 1]) {
+        0 => ScuOp::Release,
+        1 => ScuOp::Abort,
+        _ => ScuOp::Close,
+    });
+    v
+}
+
+fn run_storescp(is_async: bool, w: &mut Tape, env: &EnvRef) -> RunResult {
+    use crate::framework::sandbox_dir;
+    let who = if is_async { "storescp-async" } else { "storescp-sync" };
+    let harness = |e: std::io::Error| simcore::Violation::new("harness", "harness", format!("harness: {}", e));
+    let base = sandbox_dir();
+    let _ = std::fs::remove_dir_all(&base);
+    let out_dir = base.join("c30out");
+    std::fs::create_dir_all(&out_dir).map_err(harness)?;
+    std::env::set_current_dir(&base).map_err(harness)?;
+    let max_pdu: u32 = [16378u32, 1018, 4096][w.below(3) as usize];
+    let mut args: Vec<String> = vec!["storescp".into(), "-o".into(), out_dir.display().to_string(), "-m".into(), max_pdu.to_string()];
+    if is_async {
+        args.push("--non-blocking".into());
+    }
+    let faults = w.chance(1, 3);
+    let script = gen_scu_script(w, max_pdu as usize);
+    env.with(|e| {
+        e.obs.note_with(|| {
+            format!(
+                "{} faults={} max_pdu={} requestor script [{}]",
+                who,
+                faults,
+                max_pdu,
+                script
+                    .iter()
+                    .map(|o| match o {
+                        ScuOp::Message { pdus, abandoned, wait, what } => format!("{} {} PDUs{}{}", what, pdus.len(), if *abandoned { " then gives up" } else { "" }, if *wait { ", waits" } else { "" }),
+                        o => format!("{:?}", o),
+                    })
+                    .collect::<Vec<_>>()
+                    .join("; ")
+            )
+        })
+    });
+    simnet::begin(env, w.below(1 << 30) as u64);
+    simnet::with_net(|n| n.faults_allowed = faults);
+    let conn = simnet::connection(None);
+    let tool_res: Shared<Option<Result<(), String>>> = shared(None);
+    {
+        let fd = simnet::fd_of(conn.a);
+        let tool_res = tool_res.clone();
+        simnet::spawn_node("storescp", is_async, move || {
+            let r = if is_async { async_rt().block_on(async { tool_storescp::serve_async(tokio_stream(fd), &args).await }) } else { tool_storescp::serve_sync(std_stream(fd), &args) };
+            *tool_res.lock().unwrap() = Some(r);
+        });
+    }
+    // (release request sent, reply received)
+    let scu: Shared<(bool, bool, bool)> = shared((false, false, false));
+    {
+        let fd = simnet::fd_of(conn.b);
+        let scu = scu.clone();
+        let script = script.clone();
+        simnet::spawn_node("requestor-stub", false, move || {
+            let mut buf = Vec::new();
+            if !raw_send_all(fd, &rq_bytes()) || !matches!(raw_recv_pdu(fd, &mut buf), Some((2, _))) {
+                raw_close(fd);
+                return;
+            }
+            scu.lock().unwrap().2 = true;
+            'ops: for op in &script {
+                match op {
+                    ScuOp::Message { pdus, wait, .. } => {
+                        for p in pdus {
+                            if !raw_send_all(fd, p) {
+                                break 'ops;
+                            }
+                        }
+                        if *wait && raw_recv_pdu(fd, &mut buf).is_none() {
+                            break 'ops;
+                        }
+                    }
+                    ScuOp::Release => {
+                        if raw_send_all(fd, &rp::encode(&RPdu::ReleaseRq).unwrap()) {
+                            scu.lock().unwrap().0 = true;
+                            // answers to messages it did not wait for come first
+                            loop {
+                                match raw_recv_pdu(fd, &mut buf) {
+                                    Some((6, _)) => {
+                                        scu.lock().unwrap().1 = true;
+                                        break;
+                                    }
+                                    Some((4, _)) => {}
+                                    _ => break,
+                                }
+                            }
+                        }
+                    }
+                    ScuOp::Abort => {
+                        raw_send_all(fd, &rp::encode(&RPdu::Abort { source: 0, reason: 0 }).unwrap());
+                    }
+                    ScuOp::Close => {}
+                }
+            }
+            raw_close(fd);
+        });
+    }
+    let rep = simnet::run(120_000);
+    let end = simnet::end();
+    if end.needs_restart {
+        simnet::request_restart();
+    }
+    for n in &end.nodes {
+        if let Some(p) = &n.panicked {
+            fail!("no-panic", format!("c30:panic:{}", n.name), "node {} panicked: {}", n.name, p);
+        }
+    }
+    check!(rep.finished, "liveness", format!("c30:{}:stuck", who), "nodes did not return within the step budget: {:?} (steps {}, quiesced {})", rep.stuck, rep.steps, rep.quiesced);
+    let ep = &end.eps[conn.a];
+    let peer = &end.eps[conn.b];
+    let established = scu.lock().unwrap().2;
+    if !established {
+        return Ok(());
+    }
+    // the send-sequence constraints of the state machine on what the tool put on the wire
+    let side = Side { established: true, ..Default::default() };
+    check_side(env, who, &side, ep, peer, faults)?;
+    let sent = sent_after_handshake(ep);
+    let recvd = received_after_handshake(ep, peer);
+    let abandoned = script.iter().any(|o| matches!(o, ScuOp::Message { abandoned: true, .. }));
+    // an acceptor answers a release request with a release reply: once the tool has been handed a complete
+    // A-RELEASE-RQ while it was still in the association, its next and last PDU is A-RELEASE-RP
+    if let Some((_, rq_seq)) = recvd.iter().find(|(p, s)| matches!(p, RPdu::ReleaseRq) && *s != u64::MAX) {
+        let gone_before = sent.iter().any(|(p, s, _)| matches!(p, RPdu::Abort { .. }) && *s <= *rq_seq);
+        if !gone_before && !faults {
+            env.probe("storescp-release-answered");
+            if abandoned {
+                env.probe("storescp-release-mid-dataset");
+            }
+            check!(
+                matches!(sent.last(), Some((RPdu::ReleaseRp, _, _))),
+                "release-answered",
+                format!("c30:{}:release-not-answered", who),
+                "{} was handed an A-RELEASE-RQ{} but the last PDU it sent is {:?}",
+                who,
+                if abandoned { " in the middle of a data set (after a non-final fragment)" } else { "" },
+                sent.last().map(|x| x.0.kind())
+            );
+            check!(ep.closed, "closes", format!("c30:{}:open-after-release", who), "{} answered the release but its descriptor is still open after it returned", who);
+        }
+    }
+    if let Some((_, ab_seq)) = recvd.iter().find(|(p, s)| matches!(p, RPdu::Abort { .. }) && *s != u64::MAX) {
+        env.probe("storescp-aborted-by-peer");
+        if abandoned {
+            env.probe("storescp-abort-mid-dataset");
+        }
+        // the tool may still answer the messages it was handed before the abort (its reads run ahead of its
+        // processing), one PDU per complete message, and nothing else
+        let _ = ab_seq;
+        let complete = script.iter().filter(|o| matches!(o, ScuOp::Message { abandoned: false, .. })).count();
+        check!(
+            sent.len() <= complete && sent.iter().all(|(p, _, _)| matches!(p, RPdu::PData(_))),
+            "state-machine",
+            format!("c30:{}:sends-after-peer-abort", who),
+            "{} sent {:?} although the peer sent only {} complete messages and then aborted",
+            who,
+            sent.iter().map(|x| x.0.kind()).collect::<Vec<_>>(),
+            complete
+        );
+        check!(ep.closed, "closes", format!("c30:{}:open-after-abort", who), "{} did not close the connection after the peer's A-ABORT", who);
+    }
+    check!(ep.closed, "closes", format!("c30:{}:open-after-return", who), "{} returned but its descriptor is still open", who);
+    let _ = tool_res;
+    Ok(())
+}
+
 fn run(cfgi: usize, w: &mut Tape, env: &EnvRef) -> RunResult {
+    if cfgi >= 8 {
+        return run_storescp(cfgi == 9, w, env);
+    }
     let faults = w.chance(1, 2);
     let timeout = w.chance(1, 3);
     simnet::begin(env, w.below(1 << 30) as u64);
